@@ -54,6 +54,21 @@ TEXT_DOCS = [
 ]
 
 
+# documents whose conversion RAISES part-way (state touched before the failure must not leak into later
+# conversions); they use the same ids as the generated documents (c0, lg0, t0, ...)
+_NSX = G.NS
+RAISING_DOCS = [
+    f'<svg {_NSX} viewBox="0 0 100 100"><defs><clipPath id="c0"><rect width="5px" height="4e38"/></clipPath></defs><rect x="30" y="30" width="40" height="40" fill="aqua" clip-path="url(#c0)"/></svg>',
+    f'<svg {_NSX} viewBox="0 0 100 100"><defs><clipPath id="c0" clip-path="url(#c1)"><circle cx="45" cy="45" r="20"/></clipPath><clipPath id="c1"><rect width="bogus" height="10"/></clipPath></defs><rect x="30" y="30" width="40" height="40" clip-path="url(#c0)"/></svg>',
+    f'<svg {_NSX} viewBox="0 0 100 100"><defs><rect id="t0" width="14" height="9"/><g id="t1"><use xlink:href="#t1"/></g></defs><use xlink:href="#t0" x="3"/><use xlink:href="#t1"/></svg>',
+    f'<svg {_NSX} viewBox="0 0 100 100"><defs><linearGradient id="lg0" x1="zero" x2="1"><stop offset="0" stop-color="red"/></linearGradient></defs><rect x="15" y="65" width="50" height="25" fill="url(#lg0)" transform="translate(1 2)"/></svg>',
+    f'<svg {_NSX} viewBox="0 0 100 100"><rect width="10" height="10"/><path d="M0,0 L10,10 L5 X" fill="red"/></svg>',
+    f'<svg {_NSX} viewBox="0 0 100 100"><rect width="10" height="10" fill="url(#lg0)" transform="scale(2)"/></svg>',
+    f'<svg {_NSX} viewBox="0 0 100 100"><g opacity=".5"><rect width="10" height="10"/><filter id="f0"/></g><rect width="10" height="10" clip-path="url(#c0)"/></svg>',
+    f'<svg {_NSX} viewBox="0 0 100 100"><svg width="50" height="50" viewBox="0 0 0 10"><rect width="10" height="10"/></svg><svg x="5" width="20" height="20"><rect width="30" height="30"/></svg></svg>',
+]
+
+
 def corpus(tier):
     docs = []
     for k in G.kinds("base"):
@@ -72,7 +87,7 @@ def corpus(tier):
         base = [k for k in G.kinds("base") if not G.has_unsupported([k])]
         for a, b in itertools.product(base[::3], base[1::3]):
             docs.append(G.document([a, b]))
-    files = sorted(glob.glob("/repo/tests/*.svg"))
+    files = sorted(glob.glob(os.environ.get("VERIF_REPO", "/repo") + "/tests/*.svg"))
     for f in files:
         n = os.path.basename(f)
         if n.startswith("bad-"):
@@ -93,6 +108,8 @@ def corpus(tier):
         out.append([d, {"allow_text": True, "drop_unsupported": True}])
     for k in ("image", "mask", "filter", "a", "gop:rect+image", "Ngop.gop.unsup.after"):
         out.append([G.document([k, "lingrad"], "stroke"), {"drop_unsupported": True}])
+    # failing conversions come first: in the whole-corpus runs of part A everything else is converted after them
+    out = [[d, {}] for d in RAISING_DOCS] + out
     return out
 
 
@@ -406,7 +423,8 @@ def run(run):
     alpha = list(range(len(docs)))
     if run.tier == "quick":
         okidx = [i for i in alpha if not str(solo.get(i, "EXC")).startswith("EXC")]
-        alpha = okidx[:34] + [i for i in okidx if docs[i][1]][:8]
+        raising = [i for i in alpha if str(solo.get(i, "EXC")).startswith("EXC")]
+        alpha = raising[:10] + okidx[:34] + [i for i in okidx if docs[i][1]][:8]
     n_states = 0
     canons = {}
     t0 = time.time()
